@@ -52,7 +52,7 @@ def ft_task(tid, fault, sleep_s, *args, **kwargs):
         time.sleep(sleep_s)
     if fault and fault["when"] == "start":
         do(fault["how"])
-    if fault and fault["when"] in ("before_notice", "after_notice"):
+    if fault and fault["when"] in ("before_notice", "after_notice", "mid_publish"):
         PENDING = (fault["ds"], fault["when"], fault["how"])
     v = sym_value(tid, 0, args, kwargs)
     log("body-exit", tid)
@@ -66,7 +66,7 @@ def ft_gen(tid, nout, fault, sleep_s, *args, **kwargs):
         time.sleep(sleep_s)
     if fault and fault["when"] == "start":
         do(fault["how"])
-    if fault and fault["when"] in ("before_notice", "after_notice"):
+    if fault and fault["when"] in ("before_notice", "after_notice", "mid_publish"):
         PENDING = (fault["ds"], fault["when"], fault["how"])
     for i in range(nout):
         if fault and fault["when"] == "mid" and i == max(1, nout // 2):
@@ -110,6 +110,29 @@ def install_executor_hooks():
         real_cb(address, msg)
 
     memory.callback = notice_wrapper
+
+    # fault point "mid_publish": between the shm allocation of the output and its close callback (the store keeps the dataset in
+    # status 'created' for good -- its writer is gone)
+    from cascade.executor.runner.memory import ds2shmid
+    from cascade.low.core import DatasetId
+    real_allocate = memory.shm_client.allocate
+
+    def allocate_wrapper(key, l, deser_fun, *a, **k):  # noqa: E741
+        global PENDING
+        buf = real_allocate(key, l, deser_fun, *a, **k)
+        f = PENDING
+        if f and f[1] == "mid_publish":
+            t, o = f[0].rsplit(".", 1)
+            if key == ds2shmid(DatasetId(t, o)):
+                PENDING = None
+                do(f[2])
+        return buf
+
+    class _ShmClient:
+        def __getattr__(self, name):
+            return allocate_wrapper if name == "allocate" else getattr(real_shm_client, name)
+    real_shm_client = memory.shm_client
+    memory.shm_client = _ShmClient()
 
     real_exec = entrypoint.execute_sequence
 
